@@ -108,6 +108,8 @@ class SourceDataWrapper(ABC):
             # determine the numpy number dtype
             number_type = known_dtypes.get(dtype_name, dset_row0.dtype)
             ReprCodeConverter.validate_numpy_dtype(number_type)
+            # chunks are kept in native byte order; they are byte-swapped to big-endian when FrameData is written
+            number_type = np.dtype(number_type).newbyteorder('=')
 
             # determine the dtype of the data set (2- or 3-tuple)
             dt = (dtype_name, number_type)
